@@ -1,3 +1,4 @@
+//verif:race
 // C06 — key-location index: lookups are sound; entries are displaced
 // oldest-first, never silently; a block release removes exactly the entries
 // pointing into the block.
@@ -83,6 +84,7 @@ func body(w *run.Worker) {
 	}
 	randomEngine(w, mr)
 	exhaustiveEngine(w, mr)
+	concurrentEngine(w)
 }
 
 func flush(w *run.Worker, st *stats) {
